@@ -108,17 +108,59 @@ def history_steps(tier, rnd):
     return steps + tail[:8]
 
 
+def key_correspondence(chk, E, root, prog, diffs):
+    """the derived garble-cache keys of real packages (pkgCacheID, goAsmCacheID, debugArtifactsCacheID) vs the model's
+    pre-images hashed by the model's SHA-256: which inputs a key covers is exactly what the theorems are about"""
+    from . import c01model
+    from .c01model import hx, unhex, parse_list
+    orc, err = core.build_oracle()
+    S = c01model.OracleSession(orc, E.env(), cwd=root)
+    mops, expect, labels = [], [], []
+    try:
+        a = S.ask("load %s %s %s" % (hx(root), hx(""), hx("./...")))
+        if not a.startswith("ok"):
+            diffs.append({"op": "load", "impl": a, "model": "ok"}); return
+        pkgs = [unhex(l.split("|")[0]).decode() for l in parse_list(S.ask("pkgs"))]
+        mine = [p for p in pkgs if p.startswith(prog.mod)]
+        std = [p for p in pkgs if p in ("fmt", "reflect", "encoding/json", "strings", "runtime", "os", "sync", "internal/abi", "unicode/utf8", "errors")]
+        for p in mine + std:
+            r = S.ask("cacheids " + hx(p))
+            if r.startswith("!"):
+                continue
+            f = dict(x.split("=", 1) for x in r.split(" "))
+            kc, ka = f["kinds"].split(",")
+            mops.append("cacheidsm %s %s %s %s" % (f["gaid"], f["deps"], kc, ka))
+            expect.append("%s %s %s %s" % (f["pkg"], f["asm"], f["dbgcompile"], f["dbgasm"]))
+            labels.append((p, 0 if f["deps"] == "-" else f["deps"].count(",") + 1, int(f["ndeps"])))
+    finally:
+        S.close()
+    ans = c01model.model_answers(mops)
+    st = chk.cov["streams"].setdefault("oracle:cache-keys", {"packages": 0, "with_indirect_dependencies": 0, "disagreements": 0})
+    for o, e, m, (p, nall, ndirect) in zip(mops, expect, ans, labels):
+        st["packages"] += 1
+        if nall > ndirect:
+            st["with_indirect_dependencies"] += 1
+        if e != m:
+            st["disagreements"] += 1
+            which = [n for n, a_, b_ in zip(("pkgCacheID", "goAsmCacheID", "debugArtifactsCacheID(compile)", "debugArtifactsCacheID(asm)"), e.split(" "), m.split(" ")) if a_ != b_]
+            diffs.append({"op": "cache keys of %s (%d transitive, %d direct dependencies)" % (p, nall, ndirect), "impl": e[:140], "model": m[:140], "differs": which})
+    chk.count_cases(mops)
+
+
 def main(tier, replay=None):
     chk = core.Check(PID, tier)
     core.build_tools()
     chk.proofs(GENS, MODULES)
     E = e2e.E2E("c06")
     fails = []
+    KEYDIFFS = []
     try:
         rnd = random.Random(chk.seed * 37 + 5)
         prog = program(rnd)
         prog._xvar = next(n for n in prog.go_names if "njected" in n)
         files = prog.render()
+        kroot = E.write_module("keys", files)
+        key_correspondence(chk, E, kroot, prog, KEYDIFFS)
         steps = history_steps(tier, rnd)
         # warm the std closure for every configuration of the history in the shared caches, then snapshot them
         hello = E.write_module("hello", {"go.mod": "module gv.test/hello\n\ngo 1.26\n", "main.go": "package main\n\nimport (\n\t\"encoding/json\"\n\t\"fmt\"\n\t\"os\"\n\t\"reflect\"\n\t\"strconv\"\n\t\"strings\"\n)\n\nfunc main() { b, _ := json.Marshal(os.Args); fmt.Println(strings.Repeat(strconv.Itoa(len(b)), 2), reflect.TypeOf(b)) }\n"})
@@ -186,6 +228,9 @@ def main(tier, replay=None):
         H.drop(); base.drop()
     finally:
         E.cleanup()
+    if KEYDIFFS:
+        chk.cov["broken"].append({"kind": "correspondence", "what": "%d cache keys disagree with the model, first: %s" % (len(KEYDIFFS), KEYDIFFS[0])})
+        chk.log("correspondence broken:", str(KEYDIFFS[0])[:400])
     seen = set()
     for f in fails:
         if f["key"] not in seen:
